@@ -1,7 +1,7 @@
 (* C14 — non-vacuity and sanity runs *)
 From Coq Require Import ZArith QArith List Bool.
 Import ListNotations.
-From GV Require Import Common.Wire C14.Model C14.Lemmas C14.GenEquiv.
+From GV Require Import Common.Wire gen.Gen_parse C14.ParseModel C14.Model C14.Lemmas C14.GenEquiv C14.ParseLemmas.
 Open Scope Z_scope.
 
 (* a 2 x 3 dataset: pixel attributes 0, 1; a plain stored attribute 2; a stored attribute 3 that is broadcast along
@@ -55,3 +55,28 @@ Example generated_cascade_same : g_remove_component 3 d0 = remove_component 3 d0
 Proof. split; vm_compute; reflexivity. Qed.
 Example generated_update_id_same : keys (dcomps (g_update_id 2 9 d0)) = keys (dcomps (update_id 2 9 d0)).
 Proof. vm_compute. reflexivity. Qed.
+
+(* ---- parsed commands: "{ a } + {a}*{a b }" with a -> object 1 (uuid "u1"), "a b" -> object 2 (uuid "u2") ---- *)
+Definition uu (o : Z) : list Z := [117; 48 + o].
+Definition tbl : list (list Z * Z) := [([97], 1); ([97; 32; 98], 2)].
+Definition cmd0 : list Z := [123; 32; 97; 32; 125; 32; 43; 32; 123; 97; 125; 42; 123; 97; 32; 98; 32; 125].
+Eval vm_compute in (tokenize cmd0, spans 0 (tokenize cmd0)).
+Eval vm_compute in (_validate 0 uu cmd0 tbl).
+Example validate_example :
+  exists toks' refs', validate_tokens 0 uu (tokenize cmd0) tbl = Some (toks', refs')
+    /\ _validate 0 uu cmd0 tbl = Some (detok toks', refs')
+    /\ deref refs' toks' = deref tbl (tokenize cmd0)
+    /\ deref tbl (tokenize cmd0) = [PObj (Some 1); PText [32; 43; 32]; PObj (Some 1); PText [42]; PObj (Some 2)].
+Proof. eexists. eexists. repeat split; vm_compute; reflexivity. Qed.
+(* the hypotheses of validate_tokens_meaning hold for it *)
+Example validate_hyps :
+  (forall raw, In raw (raws (tokenize cmd0)) -> strip (uu (obj_of 0 tbl raw)) = uu (obj_of 0 tbl raw)) /\
+  (forall a b, In a (raws (tokenize cmd0)) -> In b (raws (tokenize cmd0)) -> uu (obj_of 0 tbl a) <> b).
+Proof.
+  split.
+  - intros raw H. vm_compute in H. repeat (destruct H as [<-|H]; [vm_compute; reflexivity|]). destruct H.
+  - intros a b Ha Hb. vm_compute in Ha, Hb.
+    repeat (destruct Ha as [<-|Ha]; [repeat (destruct Hb as [<-|Hb]; [vm_compute; discriminate|]); destruct Hb|]). destruct Ha.
+Qed.
+(* an unknown tag raises *)
+Eval vm_compute in (_validate 0 uu [123; 122; 125] tbl).
